@@ -147,11 +147,22 @@ def run_with_events(mt, spec, args=(), kwargs=None, plain=False) -> Run:
 # --------------------------------------------------------------------------- canonical text
 def canon_pathobj(p) -> str:
     from . import tweezer as T
+    if not (hasattr(p, "x_tones") and hasattr(p, "y_tones") and hasattr(p, "path")):
+        return f"<not a path: {type(p).__name__}: {repr(p)[:120]}>"
     return (f"(path (li{''.join(' ' + str(int(i)) for i in p.x_tones)}) "
             f"(li{''.join(' ' + str(int(i)) for i in p.y_tones)}) {T.canon_path(p.path)})")
 
 
 def canon_event(e) -> str:
+    try:
+        return _canon_event(e)
+    except Exception as ex:  # noqa: BLE001
+        # an operand that is not what the event kind carries (e.g. a tuple where a Path is played): a canonical text that
+        # equals no well-formed event
+        return f"<malformed {e[0]} event: {type(ex).__name__}: {repr(e[1:])[:120]}>"
+
+
+def _canon_event(e) -> str:
     from . import tweezer as T
     from .sexp import sx
     k = e[0]
